@@ -136,7 +136,12 @@ func isLogStmt(s ast.Stmt) bool {
 }
 
 // loopSwitch translates the `switch filterStatus` that ends an iteration of RunReceiverFilter / RunSenderFilter.
-func loopSwitch(fd *ast.FuncDecl, cursor string) (string, error) {
+func loopSwitch(fd *ast.FuncDecl, cursor string) (string, bool, error) {
+	table, rec, err := loopSwitch2(fd, cursor)
+	return table, rec, err
+}
+
+func loopSwitch2(fd *ast.FuncDecl, cursor string) (string, bool, error) {
 	var sw *ast.SwitchStmt
 	ast.Inspect(fd.Body, func(n ast.Node) bool {
 		if s, ok := n.(*ast.SwitchStmt); ok && s.Tag != nil && exprKey(s.Tag) == "filterStatus" {
@@ -145,15 +150,16 @@ func loopSwitch(fd *ast.FuncDecl, cursor string) (string, error) {
 		return true
 	})
 	if sw == nil {
-		return "", fmt.Errorf("%s: switch filterStatus not found", fd.Name.Name)
+		return "", false, fmt.Errorf("%s: switch filterStatus not found", fd.Name.Name)
 	}
 	var out []string
+	keeps, keepsRecording := 0, 0
 	for _, st := range sw.Body.List {
 		cc := st.(*ast.CaseClause)
 		if cc.List == nil {
-			return "", fmt.Errorf("%s: default clause not supported", fd.Name.Name)
+			return "", false, fmt.Errorf("%s: default clause not supported", fd.Name.Name)
 		}
-		reset, ret, cont := false, false, false
+		reset, ret, cont, recPhase := false, false, false, false
 		for _, b := range cc.Body {
 			if isLogStmt(b) {
 				continue
@@ -162,18 +168,20 @@ func loopSwitch(fd *ast.FuncDecl, cursor string) (string, error) {
 			case *ast.AssignStmt:
 				if len(x.Lhs) == 1 && exprKey(x.Lhs[0]) == cursor && exprKey(x.Rhs[0]) == "0" && x.Tok == token.ASSIGN {
 					reset = true
+				} else if len(x.Lhs) == 1 && exprKey(x.Lhs[0]) == cursor+"Phase" && exprKey(x.Rhs[0]) == "phase" && x.Tok == token.ASSIGN {
+					recPhase = true
 				} else {
-					return "", fmt.Errorf("%s: unsupported assignment in switch", fd.Name.Name)
+					return "", false, fmt.Errorf("%s: unsupported assignment in switch", fd.Name.Name)
 				}
 			case *ast.ReturnStmt:
 				ret = true
 			case *ast.BranchStmt:
 				if x.Tok != token.CONTINUE {
-					return "", fmt.Errorf("%s: unsupported branch in switch", fd.Name.Name)
+					return "", false, fmt.Errorf("%s: unsupported branch in switch", fd.Name.Name)
 				}
 				cont = true
 			default:
-				return "", fmt.Errorf("%s: unsupported statement %T in switch", fd.Name.Name, b)
+				return "", false, fmt.Errorf("%s: unsupported statement %T in switch", fd.Name.Name, b)
 			}
 		}
 		act := ""
@@ -186,19 +194,87 @@ func loopSwitch(fd *ast.FuncDecl, cursor string) (string, error) {
 			act = ".resetReturn"
 		case ret && !reset:
 			act = ".keepReturn"
+			keeps++
+			if recPhase {
+				keepsRecording++
+			}
 		default:
-			return "", fmt.Errorf("%s: case body is neither continue, reset+return nor return", fd.Name.Name)
+			return "", false, fmt.Errorf("%s: case body is neither continue, reset+return nor return", fd.Name.Name)
+		}
+		if recPhase && act != ".keepReturn" {
+			return "", false, fmt.Errorf("%s: the cursor phase is recorded outside a keep-the-cursor case", fd.Name.Name)
 		}
 		for _, l := range cc.List {
 			c, err := statusCtor(l)
 			if err != nil {
-				return "", err
+				return "", false, err
 			}
 			out = append(out, "  | "+c+" => "+act)
 		}
 	}
 	out = append(out, "  | _ => .next")
-	return strings.Join(out, "\n") + "\n", nil
+	return strings.Join(out, "\n") + "\n", keeps > 0 && keeps == keepsRecording, nil
+}
+
+// cursorGuard translates the statement in front of the receiver loop that decides where a pass starts:
+// `if d.receiverFiltersIndex != 0 && phase != d.receiverFiltersIndexPhase { d.receiverFiltersIndex = 0 }`.
+// Without such a statement a pass starts at the cursor.
+func cursorGuard(fd *ast.FuncDecl) (string, error) {
+	for _, st := range fd.Body.List {
+		if _, ok := st.(*ast.ForStmt); ok {
+			break
+		}
+		is, ok := st.(*ast.IfStmt)
+		if !ok || isLogStmt(st) {
+			continue
+		}
+		if len(is.Body.List) != 1 || is.Else != nil || is.Init != nil {
+			return "", fmt.Errorf("%s: unsupported if before the loop", fd.Name.Name)
+		}
+		as, ok := is.Body.List[0].(*ast.AssignStmt)
+		if !ok || exprKey(as.Lhs[0]) != "d.receiverFiltersIndex" || exprKey(as.Rhs[0]) != "0" {
+			return "", fmt.Errorf("%s: unsupported if body before the loop", fd.Name.Name)
+		}
+		var tr func(e ast.Expr) (string, error)
+		tr = func(e ast.Expr) (string, error) {
+			switch types.ExprString(e) {
+			case "d.receiverFiltersIndex != 0":
+				return "(cursor != 0)", nil
+			case "d.receiverFiltersIndex == 0":
+				return "(cursor == 0)", nil
+			case "phase != d.receiverFiltersIndexPhase":
+				return "(!samePhase)", nil
+			case "phase == d.receiverFiltersIndexPhase":
+				return "samePhase", nil
+			}
+			switch x := e.(type) {
+			case *ast.ParenExpr:
+				return tr(x.X)
+			case *ast.BinaryExpr:
+				if x.Op == token.LAND || x.Op == token.LOR {
+					l, err := tr(x.X)
+					if err != nil {
+						return "", err
+					}
+					r, err := tr(x.Y)
+					if err != nil {
+						return "", err
+					}
+					if x.Op == token.LAND {
+						return "(" + l + " && " + r + ")", nil
+					}
+					return "(" + l + " || " + r + ")", nil
+				}
+			}
+			return "", fmt.Errorf("%s: unsupported start condition %s", fd.Name.Name, types.ExprString(e))
+		}
+		c, err := tr(is.Cond)
+		if err != nil {
+			return "", err
+		}
+		return "if " + c + " then 0 else cursor", nil
+	}
+	return "cursor", nil
 }
 
 // handlerEffect translates the body of one case of a status handler.
@@ -593,18 +669,25 @@ func genFilterPhase() (string, error) {
 	if rr == nil || rs == nil {
 		return "", fmt.Errorf("RunReceiverFilter / RunSenderFilter not found")
 	}
-	rsw, err := loopSwitch(rr, "d.receiverFiltersIndex")
+	rsw, recPhase, err := loopSwitch(rr, "d.receiverFiltersIndex")
 	if err != nil {
 		return "", err
 	}
-	ssw, err := loopSwitch(rs, "d.senderFiltersIndex")
+	ssw, _, err := loopSwitch(rs, "d.senderFiltersIndex")
+	if err != nil {
+		return "", err
+	}
+	guard, err := cursorGuard(rr)
 	if err != nil {
 		return "", err
 	}
 	s += "/-- what the `switch filterStatus` at the end of a loop iteration does: `next` = fall to the loop increment,\n`resetReturn` = cursor := 0; return, `keepReturn` = return with the cursor left at this filter -/\n"
 	s += "inductive LoopAct where\n  | next | resetReturn | keepReturn\n  deriving DecidableEq, Repr\n"
 	s += "/-- DefaultStreamFilterChainImpl.RunReceiverFilter -/\ndef recvSwitch : FStatus → LoopAct\n" + rsw
-	s += "/-- DefaultStreamFilterChainImpl.RunSenderFilter -/\ndef sendSwitch : FStatus → LoopAct\n" + ssw + "\n"
+	s += "/-- DefaultStreamFilterChainImpl.RunSenderFilter -/\ndef sendSwitch : FStatus → LoopAct\n" + ssw
+	s += "/-- where a RunReceiverFilter pass starts, given the cursor and whether the pass has the phase recorded with it -/\n"
+	s += "def recvStart (cursor : Nat) (samePhase : Bool) : Nat := " + guard + "\n"
+	s += fmt.Sprintf("/-- every keep-the-cursor case records `receiverFiltersIndexPhase = phase` -/\ndef keepRecordsPhase : Bool := %v\n\n", recPhase)
 
 	// (g) status handlers
 	s += "/-- effect of a status handler: `clean` = s.cleanStream(); `again on target` = `if phase == on { s.receiverFiltersAgainPhase = target }` -/\n"
